@@ -389,7 +389,7 @@ def amen_divide(a, b, nswp = 22, x0 = None, eps = 1e-10,rmax = 100, max_full = 5
     normx = np.exp(np.sum(np.log(normx))/d)
 
     for k in range(d):
-        x_cores[k] *= normx
+        x_cores[k] = x_cores[k] * normx
 
     
 
